@@ -90,6 +90,10 @@ func main() {
 		if h.Tier == "thorough" && *tier != "thorough" {
 			continue
 		}
+		if h.Tier == "manual" && *only == "" {
+			// not part of any registered command (did not finish within the session's budget)
+			continue
+		}
 		if *tier == "thorough" && h.Thorough != nil {
 			// overlay thorough bounds
 			t := h.Thorough
